@@ -68,6 +68,8 @@ def fval(kind, key, salt):
         return float(key) * 2.0 + 0.25 + salt
     if kind == "boolean":
         return bool((int(key) + salt) % 2)
+    if kind == "text":
+        return f"t{int(key)}s{salt}"
     return int(key) * 3 + 7 + salt
 
 
@@ -87,7 +89,13 @@ def build(ws, cls, rng, rec):
     cells = None
     if cls == "Curve":
         segs = [[i, i + 1] for i in range(n - 1) if rng.random() < 0.7] or [[0, 1]]
-        if rng.random() < 0.4:
+        shape = rng.random()
+        if shape < 0.2:  # closed ring / descending line: segments that are not the plain index order
+            segs = [[i, i + 1] for i in range(n - 1)] + [[n - 1, 0]]
+            rec.see("curve-rings")
+        elif shape < 0.35:
+            segs = [[i + 1, i] for i in reversed(range(n - 1))]
+        elif shape < 0.6:
             rng.shuffle(segs)
         cells = segs
     elif cls == "Surface":
@@ -107,14 +115,19 @@ def build(ws, cls, rng, rec):
 
 def add_data(obj, model, rng, rec, name, short_by=0, too_long=False):
     assoc = "CELL" if (model.cells and rng.random() < 0.4) else "VERTEX"
-    kind = rng.choice(["float", "integer", "referenced", "boolean"] if not short_by else ["float", "integer", "referenced"])
+    kind = rng.choice(["float", "integer", "referenced", "boolean", "text"] if not short_by else ["float", "integer", "referenced"])
+    if too_long and kind == "text":
+        kind = "float"
     keys = model.tags if assoc == "VERTEX" else model.cell_ids
     salt = rng.randint(0, 5)
     full = [fval(kind, k, salt) for k in keys]
     n_given = len(full) - short_by if not too_long else len(full) + 2
     given = full[: max(n_given, 0)] if not too_long else full + [full[0], full[0]]
-    arr = np.array(given, dtype={"float": float, "integer": "int32", "referenced": "int32", "boolean": bool}[kind])
+    arr = np.array(given, dtype={"float": float, "integer": "int32", "referenced": "int32", "boolean": bool, "text": "U16"}[kind])
     spec = {"values": arr, "association": assoc}
+    if kind == "text":
+        spec["type"] = "text"
+        rec.see("text-channels")
     if kind == "integer":
         spec["type"] = "integer"
     if kind == "referenced":
@@ -249,6 +262,8 @@ def judge(rec, obj, model, coords, where, cls):
             continue
         keys = model.tags if d["assoc"] == "VERTEX" else model.cell_ids
         cnt = len(keys)
+        if isinstance(vals, str):  # a text channel with one entry reads back as a plain string
+            vals = np.array([vals])
         glen = 0 if vals is None else len(vals)
         okl = glen == cnt
         rec.check("C07.length", okl, op=where, cls=cls, attr=f"{d['kind']}:{d['assoc']}", detail=f"{name}: {glen} values for {cnt} {'vertices' if d['assoc'] == 'VERTEX' else 'cells'}")
@@ -347,7 +362,7 @@ def run_case(case, rec):
                 name = rng.choice(sorted(model.data))
                 dd = model.data[name]
                 keys = model.tags if dd["assoc"] == "VERTEX" else model.cell_ids
-                if not keys or (op == "assign_short" and dd["kind"] == "boolean"):
+                if not keys or (op == "assign_short" and dd["kind"] == "boolean") or dd["kind"] == "text":
                     continue
                 salt = rng.randint(10, 20)
                 full = [fval(dd["kind"], k, salt) for k in keys]
@@ -379,8 +394,12 @@ def run_case(case, rec):
                 rec.see("ops:masked_copy")
                 m2 = model.copy()
                 apply_remove_vertices(m2, [i for i, keep in enumerate(mask) if not keep])
+                clear = rng.random() < 0.4
+                if clear:
+                    _ = getattr(obj, "parts", None)  # a derived view the user may well have looked at before copying
+                    rec.see("masked-copies-with-clear_cache")
                 try:
-                    new = obj.copy(mask=mask, name="masked")
+                    new = obj.copy(mask=mask, name="masked", **({"clear_cache": True} if clear else {}))
                 except Exception as exc:  # noqa: BLE001
                     if not exc_origin(exc)[0]:
                         raise
